@@ -34,7 +34,7 @@ CHECKS = {
                 text='TLC proves DefaultRange = feasible set and that all reads of a feasible period are inside the span; the binding solves every period of every program through solve_t and solve(start=end) and checks that feasible periods change only the assigned cells and status/iterations at t, that every array access hits the intended position (no wrap), and that infeasible periods are rejected with nothing changed.',
                 note='Trusted: as C01; python engine only in this check (Fortran engine covered under C07).', ref='7 (C04)'),
     'C14': dict(category='translation_validation', engine='Script', technique="TLA+ Script.tla programs rendered under a layout catalogue; symbols and code AST must equal the canonical rendering's (metamorphic), statement independence, permutation, normal-form fixed point",
-                text='Each spec program (equations and verbatim statements) is rendered under twelve layouts (incl. CRLF line endings, comments with unmatched brackets and backticks); since the program (tree) is the meaning, every layout must give the same symbols and code AST; parsing a script must equal merging single-statement parses, permuting statements only permutes symbols and re-feeding a normalised equation reproduces equation and code.',
+                text='Each spec program (equations and verbatim statements) is rendered under twelve layouts (incl. CRLF line endings, comments with unmatched brackets and backticks), and with its first statement repeated in another layout; since the program (tree) is the meaning, every layout must give the same symbols and code AST; parsing a script must equal merging single-statement parses, permuting statements only permutes symbols and re-feeding a normalised equation reproduces equation and code.',
                 note='Trusted: renderer and layout joiner (cross-checked by ast for the canonical layout).', ref='7 (C14)'),
     'C15': dict(category='translation_validation', engine='Script', technique='TLA+ Script.tla programs x option sets (WithOpt computed by TLC) x build routes; class attributes compared with the reference and evaluation events compared pairwise by concolic execution',
                 text="For every program and four option sets the classes from build_model, from executing the definition text and from executing CODE, with and without type hints, must have the spec's lists and LAGS/LEADS and produce identical evaluation event sequences (verbatim statements report their execution); the CODE attribute equals the definition text for every converter, whatever was built before; converters are called once per equation-bearing symbol in order and their output is inserted verbatim.",
